@@ -182,6 +182,7 @@ func runC04(c *Ctx) {
 		}
 	}
 	ruleEqualityHelper(c, "EQUALITY-HELPER", checkPkgs(p))
+	c03DefaultFromDefault(c, "DEFAULT-RESOLVED", pkH)
 	c04Extra(c)
 	c04NormaliseTotal(c)
 	c04NilOutSameSide(c)
